@@ -48,10 +48,11 @@ def entriesOf (a : Archive) : List LEntry := a.flatMap Item.entries
 /-- An entry of a block with header `h` (major, minor, codec, cipher, mode) written on its own
     (`TransformStrategyUnSolid`, after the `fix:`): the entries of an *encrypted* block are stored in
     the clear inside its stream, so a file entry takes over the block's codec, cipher and mode; its
-    content (the rest of `data`) and everything else stay.  Links and directories are stored in
-    the clear by every writer of the library and are written as they are. -/
+    content (the rest of `data`) and everything else stay.  The same holds for a symbolic link entry,
+    whose content is the link (after the `fix:` that stopped link targets from being written in the
+    clear); directories and hard links have nothing to hide and are written as they are. -/
 def standalone (h : Bytes) (e : LEntry) : LEntry :=
-  if h.getD 3 0 != 0 && e.kind == 0 then { e with data := [h.getD 2 0 + 48, h.getD 3 0 + 48, h.getD 4 0 + 48] ++ e.data.drop 3 } else e
+  if h.getD 3 0 != 0 && (e.kind == 0 || e.kind == 2) then { e with data := [h.getD 2 0 + 48, h.getD 3 0 + 48, h.getD 4 0 + 48] ++ e.data.drop 3 } else e
 
 /-- `--unsolid`: every surviving entry becomes a top-level normal entry. -/
 def transformUnsolid (f : LEntry → Option LEntry) (a : Archive) : Archive :=
